@@ -257,7 +257,7 @@ PQueryMain(ts, p) ==
                    IF t.k = "eof" THEN [c |-> "none"]
                    \* a scale is a conversion target only on its own; otherwise the text is an expression
                    \* (which is then refused: a scale operator cannot be part of a compound unit)
-                   ELSE IF t.k = "degree" /\ Peek(ts, q + 1).k = "eof" THEN [c |-> "degree", deg |-> t.deg]
+                   ELSE IF t.k = "degree" /\ Peek(ts, q + 1).k \in {"eof", "nl", "comment"} THEN [c |-> "degree", deg |-> t.deg]
                    ELSE IF t.k \in {"plus", "minus"} THEN
                         (IF POffset(ts, q).ok THEN [c |-> "offset", secs |-> POffset(ts, q).secs]
                          ELSE [c |-> "expr", e |-> PEq(ts, q)[1]])
